@@ -91,6 +91,8 @@ func c09(p *Pkg, _ *Pkg, payload json.RawMessage, res *Result) {
 		res.Violate(Violation{Attrs: map[string]string{"kind": "surface"}, Observed: "no handler for " + pl.Method + " " + pl.Template})
 		return
 	}
+	tokens := map[string][]string{}
+	api.InstallAcceptAll(tokens)
 	var parsed reflect.Value
 	var perr error
 	var ran bool
